@@ -1,4 +1,532 @@
+//! C10 - concurrent callers get their own replies: request/response pairs are atomic.
+//!
+//! Clones of Frontend / Backend proxy / GpuBackend are used from 2-3 threads against a scripted
+//! raw peer that withholds each reply until the schedule says so and tags replies by request
+//! identity. The `*.sent` hold points (request written, reply not yet read) let the controller
+//! park a caller inside its transaction and release another one. Violations: a second request
+//! reaches the peer while a reply is owed/unconsumed; a caller returns another caller's tag; the
+//! calls do not all complete (deadlock certificate). All orders of the controllable actions
+//! {start X, grant X's hold, send X's reply} are enumerated for 2 callers, sampled for 3;
+//! a randomized multi-thread stress phase follows.
+
+use crate::c01::{self, FeCfg};
+use crate::ops;
+use crate::util;
 use crate::Cfg;
-pub fn run(_cfg: &Cfg) {
-    common::report::inconclusive("not implemented");
+use common::ctl;
+use common::spec::{self, be, fe, gpu, F_NEED_REPLY, F_REPLY, F_VERSION1};
+use common::sys;
+use common::{jo, report, Rng, J};
+use std::os::unix::io::{AsRawFd, RawFd};
+use std::sync::atomic::{AtomicI32, Ordering};
+use std::sync::mpsc;
+use std::sync::Arc;
+use std::time::{Duration, Instant};
+
+use vhost::vhost_user::gpu_message::*;
+use vhost::vhost_user::message::*;
+use vhost::vhost_user::{Backend, Frontend, GpuBackend, VhostUserFrontendReqHandler};
+use vhost::VhostBackend;
+
+#[derive(Clone, Copy, Debug, PartialEq, Eq)]
+enum Ep {
+    Fe,
+    Be,
+    Gpu,
+}
+
+/// Kind of call: R = has a defined reply, K = acknowledged, F = fire-and-forget
+#[derive(Clone, Copy, Debug, PartialEq, Eq)]
+enum Kind {
+    R,
+    K,
+    F,
+}
+
+#[derive(Clone)]
+enum Endpoint {
+    Fe(Frontend),
+    Be(Backend),
+    Gpu(GpuBackend),
+}
+
+/// The call thread `tag` makes; returns the value it got back (the reply tag) or an error text.
+fn do_call(ep: &Endpoint, kind: Kind, tag: u32) -> Result<u64, String> {
+    match ep {
+        Endpoint::Fe(f) => match kind {
+            Kind::R => f.get_vring_base(tag as usize).map(|v| v as u64).map_err(|e| format!("{e:?}")),
+            // acknowledged or not depends on the endpoint configuration (NEED_REPLY + REPLY_ACK)
+            _ => f.set_vring_num(tag as usize, 64).map(|_| tag as u64 + 1000).map_err(|e| format!("{e:?}")),
+        },
+        Endpoint::Be(b) => {
+            let mut u = [0x33u8; 16];
+            u[0] = tag as u8;
+            b.shared_object_add(&ops::uuid_msg(&u)).map(|_| tag as u64 + 1000).map_err(|e| format!("{e:?}"))
+        }
+        Endpoint::Gpu(g) => match kind {
+            Kind::R => g.get_edid(&VhostUserGpuEdidRequest { scanout_id: tag }).map(|r| r.size as u64).map_err(|e| format!("{e:?}")),
+            _ => g.set_scanout(&VhostUserGpuScanout { scanout_id: tag, width: 1, height: 1 }).map(|_| tag as u64 + 1000).map_err(|e| format!("{e:?}")),
+        },
+    }
+}
+
+/// What the call must return when it got the reply to its own request.
+fn expected_value(kind: Kind, tag: u32) -> u64 {
+    match kind {
+        Kind::R => 7000 + tag as u64,
+        _ => tag as u64 + 1000,
+    }
+}
+
+struct PeerReq {
+    tag: u32,
+    code: u32,
+    owes_reply: bool,
+}
+
+/// Decode one request at the raw peer: who sent it (tag from the content) and whether a reply is owed.
+fn peer_read(ep: Ep, peer_fd: RawFd) -> Option<PeerReq> {
+    if sys::inq(peer_fd) < 12 {
+        return None;
+    }
+    let mut m = spec::read_msg(peer_fd, 1000, 1 << 16);
+    m.close_fds();
+    if !m.complete() {
+        return None;
+    }
+    let h = m.hdr();
+    let (tag, owes) = match ep {
+        Ep::Fe => (spec::rd_u32(&m.body, 0), h.code == fe::GET_VRING_BASE || h.flags & F_NEED_REPLY != 0),
+        Ep::Be => (m.body[0] as u32, h.flags & F_NEED_REPLY != 0),
+        Ep::Gpu => (spec::rd_u32(&m.body, 0), h.code == gpu::GET_EDID),
+    };
+    Some(PeerReq { tag, code: h.code, owes_reply: owes })
+}
+
+fn peer_reply(ep: Ep, peer_fd: RawFd, r: &PeerReq) {
+    let bytes = match ep {
+        Ep::Fe if r.code == fe::GET_VRING_BASE => spec::msg(r.code, F_VERSION1 | F_REPLY, &spec::p_vring_state(r.tag, 7000 + r.tag)),
+        Ep::Fe | Ep::Be => spec::msg(r.code, F_VERSION1 | F_REPLY, &spec::p_u64(0)),
+        Ep::Gpu => {
+            // struct virtio_gpu_resp_edid: hdr(24) size(u32) padding(u32) edid[1024]; size carries the tag
+            let mut p = vec![0u8; gpu::EDID_RESP_SIZE];
+            p[24..28].copy_from_slice(&(7000 + r.tag).to_ne_bytes());
+            spec::msg(r.code, gpu::F_REPLY, &p)
+        }
+    };
+    let _ = sys::send_all(peer_fd, &bytes, &[]);
+}
+
+fn make_endpoint(ep: Ep, acked: bool) -> (Endpoint, std::os::unix::net::UnixStream, RawFd) {
+    match ep {
+        Ep::Fe => {
+            let c = FeCfg { need_reply: acked, reply_ack: acked, log_shmfd: true };
+            let (f, peer) = c01::setup_frontend(c, 256);
+            let fd = f.as_raw_fd();
+            (Endpoint::Fe(f), peer, fd)
+        }
+        Ep::Be => {
+            let (a, peer) = sys::pair();
+            let fd = a.as_raw_fd();
+            let b = Backend::from_stream(a);
+            b.set_shared_object_flag(true);
+            b.set_reply_ack_flag(acked);
+            (Endpoint::Be(b), peer, fd)
+        }
+        Ep::Gpu => {
+            let (a, peer) = sys::pair();
+            let fd = a.as_raw_fd();
+            (Endpoint::Gpu(GpuBackend::from_stream(a)), peer, fd)
+        }
+    }
+}
+
+#[derive(Clone, Copy, Debug, PartialEq, Eq)]
+enum Act {
+    Start(usize),
+    Grant(usize),
+    Reply(usize),
+}
+
+struct Caller {
+    kind: Kind,
+    tag: u32,
+    started: bool,
+    done: Option<Result<u64, String>>,
+    tid: Arc<AtomicI32>,
+    rx: Option<mpsc::Receiver<Result<u64, String>>>,
+    handle: Option<std::thread::JoinHandle<()>>,
+    request_seen: bool,
+    reply_sent: bool,
+    owes: bool,
+}
+
+/// Run one schedule (priority list of actions). Returns a description of what happened.
+fn run_schedule(cfg: &Cfg, ep: Ep, kinds: &[Kind], order: &[Act], case: &str) {
+    let acked = kinds.iter().any(|k| *k == Kind::K);
+    // F and K cannot be mixed on one endpoint (the flag is per endpoint): K wins
+    let kinds: Vec<Kind> = kinds.iter().map(|k| if acked && *k == Kind::F { Kind::K } else { *k }).collect();
+    let (endpoint, peer, ep_fd) = make_endpoint(ep, acked);
+    let peer_fd = peer.as_raw_fd();
+    let c = ctl::global();
+    c.reset();
+    c.set_filter(|label, point, _| point.ends_with(".sent") && label.starts_with("caller"));
+    c.arm();
+    let labels = ["callerA", "callerB", "callerC"];
+    let mut callers: Vec<Caller> = kinds
+        .iter()
+        .enumerate()
+        .map(|(i, k)| Caller { kind: *k, tag: i as u32 + 1, started: false, done: None, tid: Arc::new(AtomicI32::new(0)), rx: None, handle: None, request_seen: false, reply_sent: false, owes: false })
+        .collect();
+    let mut remaining: Vec<Act> = order.to_vec();
+    let mut trace: Vec<String> = Vec::new();
+    let mut owed: Vec<usize> = Vec::new(); // callers whose reply the peer owes (request read, reply not sent)
+    let mut violation: Option<(String, String)> = None;
+    let deadline = Instant::now() + Duration::from_secs(20);
+    let mut idle_rounds = 0;
+    loop {
+        // pump the peer: read any request that arrived
+        while let Some(r) = peer_read(ep, peer_fd) {
+            let idx = (r.tag as usize).wrapping_sub(1);
+            trace.push(format!("peer-read:{}", r.tag));
+            // atomicity: no request may arrive while a reply is owed, or sent but not yet consumed
+            let unconsumed = sys::inq(ep_fd) > 0;
+            if (!owed.is_empty() || unconsumed) && violation.is_none() {
+                violation = Some(("second-request-inside-transaction".into(), format!("request of caller {} arrived while the reply to caller(s) {:?} was {}", r.tag, owed.iter().map(|i| i + 1).collect::<Vec<_>>(), if unconsumed { "still unconsumed" } else { "owed" })));
+            }
+            if let Some(cl) = callers.get_mut(idx) {
+                cl.request_seen = true;
+                cl.owes = r.owes_reply;
+                if r.owes_reply {
+                    owed.push(idx);
+                } else {
+                    cl.reply_sent = true;
+                }
+            }
+        }
+        // collect finished callers
+        for cl in callers.iter_mut() {
+            if cl.done.is_none() {
+                if let Some(rx) = &cl.rx {
+                    if let Ok(v) = rx.try_recv() {
+                        cl.done = Some(v);
+                        trace.push(format!("return:{}", cl.tag));
+                    }
+                }
+            }
+        }
+        // pick the first enabled action of the remaining list
+        let waiting = c.waiting();
+        let enabled = remaining.iter().position(|a| match a {
+            Act::Start(i) => !callers[*i].started,
+            Act::Grant(i) => waiting.iter().any(|w| w.label == labels[*i]),
+            Act::Reply(i) => owed.contains(i),
+        });
+        if let Some(p) = enabled {
+            idle_rounds = 0;
+            let a = remaining.remove(p);
+            trace.push(format!("{a:?}"));
+            match a {
+                Act::Start(i) => {
+                    let (tx, rx) = mpsc::channel();
+                    let e2 = endpoint.clone();
+                    let (kind, tag, tid) = (callers[i].kind, callers[i].tag, callers[i].tid.clone());
+                    let label = labels[i];
+                    callers[i].handle = Some(std::thread::Builder::new().name(label.into()).spawn(move || {
+                        ctl::label(label);
+                        tid.store(sys::gettid(), Ordering::SeqCst);
+                        let r = do_call(&e2, kind, tag);
+                        let _ = tx.send(r);
+                    }).expect("spawn"));
+                    callers[i].rx = Some(rx);
+                    callers[i].started = true;
+                    // let it run until it blocks somewhere (hold point, mutex or socket)
+                    let t = callers[i].tid.clone();
+                    sys::wait_until(2000, || {
+                        let tid = t.load(Ordering::SeqCst);
+                        tid > 0 && (c.waiting().iter().any(|w| w.label == label) || sys::parked_in(tid, &[sys::SYS_FUTEX, sys::SYS_RECVMSG]))
+                    });
+                }
+                Act::Grant(i) => {
+                    if let Some(w) = waiting.iter().find(|w| w.label == labels[i]) {
+                        c.grant(w.ticket);
+                    }
+                }
+                Act::Reply(i) => {
+                    owed.retain(|x| *x != i);
+                    let r = PeerReq { tag: callers[i].tag, code: match (ep, callers[i].kind) { (Ep::Fe, Kind::R) => fe::GET_VRING_BASE, (Ep::Fe, _) => fe::SET_VRING_NUM, (Ep::Be, _) => be::SHARED_OBJECT_ADD, (Ep::Gpu, _) => gpu::GET_EDID }, owes_reply: true };
+                    peer_reply(ep, peer_fd, &r);
+                    callers[i].reply_sent = true;
+                }
+            }
+            continue;
+        }
+        // nothing enabled: finished?
+        let all_done = callers.iter().all(|cl| cl.started && cl.done.is_some());
+        let starts_left = remaining.iter().any(|a| matches!(a, Act::Start(_)));
+        if all_done && !starts_left {
+            break;
+        }
+        // two callers at a hold point at the same time = two requests written back to back
+        if waiting.len() > 1 && violation.is_none() {
+            violation = Some(("two-callers-inside-transaction".into(), format!("{:?} are both between 'request written' and 'reply read'", waiting.iter().map(|w| w.label.clone()).collect::<Vec<_>>())));
+        }
+        idle_rounds += 1;
+        std::thread::sleep(Duration::from_micros(200));
+        if idle_rounds > 50 {
+            // quiescence: every unfinished caller parked in futex/recvmsg, nothing in flight,
+            // no reply owed, no hold pending, no action enabled -> nothing can ever move
+            let stuck: Vec<&Caller> = callers.iter().filter(|cl| cl.started && cl.done.is_none()).collect();
+            let parked = stuck.iter().all(|cl| sys::parked_in(cl.tid.load(Ordering::SeqCst), &[sys::SYS_FUTEX, sys::SYS_RECVMSG]));
+            let quiet = sys::inq(peer_fd) == 0 && sys::inq(ep_fd) == 0 && owed.is_empty() && c.waiting().is_empty();
+            if !stuck.is_empty() && parked && quiet && !starts_left {
+                if violation.is_none() {
+                    violation = Some(("calls-never-complete".into(), format!("deadlock certificate: callers {:?} parked in futex/recvmsg, no bytes in flight, no reply owed", stuck.iter().map(|c| c.tag).collect::<Vec<_>>())));
+                }
+                break;
+            }
+        }
+        if Instant::now() > deadline {
+            report::inconclusive(&format!("schedule {case}: watchdog expired without certificate"));
+            break;
+        }
+    }
+    // unblock everything and join
+    c.free_run();
+    unsafe { libc::shutdown(ep_fd, libc::SHUT_RDWR) };
+    for cl in callers.iter_mut() {
+        if let Some(h) = cl.handle.take() {
+            let _ = h.join();
+        }
+        if cl.done.is_none() {
+            if let Some(rx) = &cl.rx {
+                if let Ok(v) = rx.try_recv() {
+                    cl.done = Some(v);
+                }
+            }
+        }
+    }
+    report::eval(1);
+    let epn = format!("{ep:?}").to_lowercase();
+    report::count(&format!("schedules.{epn}"), 1);
+    report::distinct_str(&format!("{epn}:{kinds:?}:{}", trace.join(">")));
+    report::count("hold_point_arrivals", c.log().iter().filter(|e| e.kind == "arrive").count() as u64);
+    if violation.is_none() {
+        for cl in &callers {
+            let want = expected_value(cl.kind, cl.tag);
+            match &cl.done {
+                Some(Ok(v)) if *v == want => {}
+                other => {
+                    violation = Some(("caller-got-foreign-or-no-reply".into(), format!("caller {} ({:?}) returned {:?}, expected its own tag {}", cl.tag, cl.kind, other, want)));
+                    break;
+                }
+            }
+        }
+    }
+    if let Some((sig, why)) = violation {
+        report::violation(&format!("C10:{epn}:{sig}"), jo! {"endpoint" => epn.as_str(), "calls" => format!("{kinds:?}"), "schedule" => format!("{order:?}"), "trace" => trace.clone(), "why" => why}, cfg.replay(case));
+    }
+    report::sample(&format!("{epn}:{kinds:?}"), jo! {"endpoint" => epn.as_str(), "calls" => format!("{kinds:?}"), "interleaving_observed" => trace});
+    drop(peer);
+}
+
+fn permutations(items: &[Act]) -> Vec<Vec<Act>> {
+    if items.len() <= 1 {
+        return vec![items.to_vec()];
+    }
+    let mut out = Vec::new();
+    for i in 0..items.len() {
+        let mut rest = items.to_vec();
+        let x = rest.remove(i);
+        for mut p in permutations(&rest) {
+            p.insert(0, x);
+            out.push(p);
+        }
+    }
+    out
+}
+
+/// Orders in which Start precedes Grant precedes... are the only meaningful ones per caller.
+fn well_formed(p: &[Act], n: usize) -> bool {
+    for i in 0..n {
+        let s = p.iter().position(|a| *a == Act::Start(i));
+        let g = p.iter().position(|a| *a == Act::Grant(i));
+        let r = p.iter().position(|a| *a == Act::Reply(i));
+        if let (Some(s), Some(g)) = (s, g) {
+            if s > g {
+                return false;
+            }
+        }
+        if let (Some(s), Some(r)) = (s, r) {
+            if s > r {
+                return false;
+            }
+        }
+    }
+    true
+}
+
+fn schedules(cfg: &Cfg, rng: &mut Rng) {
+    let mut idx = 0u64;
+    for ep in [Ep::Fe, Ep::Be, Ep::Gpu] {
+        let kinds2: Vec<[Kind; 2]> = match ep {
+            Ep::Fe => vec![[Kind::R, Kind::R], [Kind::R, Kind::K], [Kind::K, Kind::R], [Kind::K, Kind::K], [Kind::R, Kind::F], [Kind::F, Kind::R], [Kind::F, Kind::F]],
+            Ep::Be => vec![[Kind::K, Kind::K], [Kind::F, Kind::F]],
+            Ep::Gpu => vec![[Kind::R, Kind::R], [Kind::R, Kind::F], [Kind::F, Kind::R], [Kind::F, Kind::F]],
+        };
+        for ks in kinds2 {
+            let mut acts = Vec::new();
+            for (i, k) in ks.iter().enumerate() {
+                acts.push(Act::Start(i));
+                acts.push(Act::Grant(i));
+                if *k != Kind::F {
+                    acts.push(Act::Reply(i));
+                }
+            }
+            for p in permutations(&acts) {
+                if !well_formed(&p, 2) {
+                    continue;
+                }
+                idx += 1;
+                if !cfg.mine(idx) {
+                    continue;
+                }
+                run_schedule(cfg, ep, &ks, &p, &format!("sched:{idx}"));
+            }
+        }
+        // three callers: sampled orders
+        let all = [Kind::R, Kind::K, Kind::F];
+        for _ in 0..cfg.pick(40, 600) {
+            let ks: Vec<Kind> = (0..3).map(|_| {
+                let k = *rng.pick(&all);
+                match (ep, k) {
+                    (Ep::Be, Kind::R) => Kind::K,
+                    (Ep::Gpu, Kind::K) => Kind::R,
+                    _ => k,
+                }
+            }).collect();
+            let acked = ks.iter().any(|k| *k == Kind::K);
+            let mut acts = Vec::new();
+            for (i, k) in ks.iter().enumerate() {
+                acts.push(Act::Start(i));
+                acts.push(Act::Grant(i));
+                if *k != Kind::F || acked {
+                    acts.push(Act::Reply(i));
+                }
+            }
+            rng.shuffle(&mut acts);
+            idx += 1;
+            if !cfg.mine(idx) {
+                continue;
+            }
+            run_schedule(cfg, ep, &ks, &acts, &format!("sched3:{}", rng.0));
+        }
+    }
+    ctl::global().reset();
+}
+
+/// Stress: many threads, immediate replies tagged by request content, random jitter at the hooks.
+fn stress(cfg: &Cfg, rng: &mut Rng) {
+    let threads = 8u32;
+    let calls = cfg.pick(400, 4000) as u32;
+    for ep in [Ep::Fe, Ep::Be, Ep::Gpu] {
+        let (endpoint, peer, ep_fd) = make_endpoint(ep, true);
+        let peer_fd = peer.as_raw_fd();
+        let c = ctl::global();
+        c.reset();
+        c.set_jitter(Some(rng.next()));
+        let total = threads * calls;
+        // peer thread: serve strictly one request at a time, check nothing else is queued
+        let peer_h = std::thread::spawn(move || {
+            let mut served = 0u32;
+            let mut overlap = 0u32;
+            let deadline = Instant::now() + Duration::from_secs(60);
+            while served < total && Instant::now() < deadline {
+                if let Some(r) = peer_read(ep, peer_fd) {
+                    if r.owes_reply {
+                        // while this reply is owed no other request may be on the wire
+                        std::thread::yield_now();
+                        if sys::inq(peer_fd) != 0 {
+                            overlap += 1;
+                        }
+                        peer_reply(ep, peer_fd, &r);
+                    }
+                    served += 1;
+                } else {
+                    std::thread::yield_now();
+                }
+            }
+            (served, overlap)
+        });
+        let mut hs = Vec::new();
+        for t in 0..threads {
+            let e2 = endpoint.clone();
+            hs.push(std::thread::spawn(move || {
+                let mut wrong = Vec::new();
+                for i in 0..calls {
+                    let tag = (t * 16 + i % 16) % 250 + 1;
+                    let kind = if ep == Ep::Gpu || (ep == Ep::Fe && i % 2 == 0) { Kind::R } else { Kind::K };
+                    let kind = if ep == Ep::Be { Kind::K } else { kind };
+                    let r = do_call(&e2, kind, tag);
+                    if r != Ok(expected_value(kind, tag)) {
+                        wrong.push(format!("thread {t} call {i} tag {tag} {kind:?} -> {r:?}"));
+                        if wrong.len() > 3 {
+                            break;
+                        }
+                    }
+                }
+                wrong
+            }));
+        }
+        let mut wrong = Vec::new();
+        for h in hs {
+            wrong.extend(h.join().unwrap_or_default());
+        }
+        unsafe { libc::shutdown(ep_fd, libc::SHUT_RDWR) };
+        let (served, overlap) = peer_h.join().unwrap_or((0, 0));
+        c.reset();
+        let epn = format!("{ep:?}").to_lowercase();
+        report::eval(1);
+        report::count(&format!("stress.{epn}.calls"), served as u64);
+        report::distinct_str(&format!("stress:{epn}:{}", rng.0));
+        if !wrong.is_empty() || overlap > 0 {
+            report::violation(
+                &format!("C10:{epn}:stress:{}", if overlap > 0 { "second-request-inside-transaction" } else { "caller-got-foreign-or-no-reply" }),
+                jo! {"endpoint" => epn.as_str(), "threads" => threads, "calls_per_thread" => calls, "served" => served, "overlapping_requests" => overlap, "wrong_returns" => wrong},
+                cfg.replay("stress"),
+            );
+        }
+        report::sample(&format!("stress.{epn}"), jo! {"endpoint" => epn.as_str(), "threads" => threads, "calls_served_by_peer" => served, "overlapping_requests" => overlap});
+        drop(peer);
+    }
+}
+
+pub fn run(cfg: &Cfg) {
+    report::assume("hold points fe.sent / be_req.sent / gpu.sent sit inside the connection mutex on purpose: the property is that the mutex is held there");
+    vhost::verif::set_hook(Some(Arc::new(|p, c| ctl::global().hook(p, c))));
+    let mut rng = Rng::new(cfg.seed.wrapping_mul(0xc10).wrapping_add(cfg.shard));
+    let only = cfg.only.clone().unwrap_or_default();
+    let part = only.split(':').next().unwrap_or("").to_string();
+    let mut c = cfg.clone();
+    if let Some((p, idx)) = only.split_once(':') {
+        if let Ok(i) = idx.parse::<u64>() {
+            if p == "sched" {
+                c.only = None;
+                c.nshards = u64::MAX;
+                c.shard = i;
+            } else if p == "sched3" {
+                rng = common::Rng(i);
+            }
+        }
+    }
+    if part.is_empty() || part == "all" || part.starts_with("sched") {
+        schedules(&c, &mut rng);
+    }
+    if (part.is_empty() && cfg.shard == 0) || part == "all" || part == "stress" {
+        stress(cfg, &mut rng);
+    }
+    vhost::verif::set_hook(None);
+    let hits = ctl::global().hits();
+    report::extra("x_hold_point_hits", J::O(hits.iter().map(|(k, v)| (k.to_string(), J::U(*v))).collect()));
+    let _ = util::full_script;
 }
